@@ -52,7 +52,7 @@ def draw_doc(data, el, depth, flags, budget, inside):
             txt = a['fixed'] or data.draw(st.sampled_from(lexical.valid_texts(a['type'])))
             if not lexical.valid(a['type'], txt, strict=True):
                 continue
-            plan['attrs'][q] = spell(data, a['type'], txt)
+            plan['attrs'][q] = spell(data, a['type'], txt, fixed=bool(a['fixed']))
             if special:
                 flags.add('special-attribute')
     tt = s.text_type(t)
@@ -84,10 +84,20 @@ def draw_doc(data, el, depth, flags, budget, inside):
     return plan
 
 
-def spell(data, tt, txt):
-    """alternative lexical spellings of a decimal value (all valid for the type)"""
+# magnitudes whose float repr() carries an exponent: the serialiser has to expand them digit for digit
+EXTREME_DECIMALS = ['0.0000001', '0.00000123', '-0.0000005', '0.000000015', '100000000000000000.0',
+                    '-0.00001875', '12300000000000000000']
+
+
+def spell(data, tt, txt, fixed=False):
+    """alternative lexical spellings of a decimal value (all valid for the type); one non-fixed decimal in eight is
+    replaced by a very small / very large magnitude of the same type"""
     ti = lexical.info(tt)
     if ti.union is None and ti.primitive == 'decimal':
+        if not fixed and not ti.is_integer and data.draw(st.integers(0, 7)) == 0:
+            ext = [x for x in EXTREME_DECIMALS if lexical.valid(tt, x, strict=True)]
+            if ext:
+                txt = data.draw(st.sampled_from(ext))
         alts = [txt]
         if not ti.is_integer and '.' not in txt:
             alts += [txt + '.0', txt + '.00']
